@@ -246,7 +246,7 @@ func c13Round(o *cli.Opts, run *evid.Run, ks *keyset, srv *proc.Server, mode, rk
 		if ks.mode == "deletion" && !twinInvalid(ks, tw) {
 			reqs[1] = newReq("valid", "POST", ref.MustJSON(tw), expectValid, h)
 		}
-		offsets[0], offsets[1] = offsets[0], offsets[0]
+		offsets[1] = offsets[0]
 		run.Add("twin_pairs", 1)
 	}
 	evBefore := len(readEvents(srv.EventLog))
